@@ -9,6 +9,8 @@ import (
 
 	remoteexecution "github.com/bazelbuild/remote-apis/build/bazel/remote/execution/v2"
 	"github.com/buildbarn/bb-storage/pkg/blobstore"
+	"github.com/buildbarn/bb-storage/pkg/blobstore/configuration"
+	pb_blobstore "github.com/buildbarn/bb-storage/pkg/proto/configuration/blobstore"
 	"github.com/buildbarn/bb-storage/pkg/blobstore/buffer"
 	"github.com/buildbarn/bb-storage/pkg/blobstore/mirrored"
 	"github.com/buildbarn/bb-storage/pkg/blobstore/replication"
@@ -89,6 +91,17 @@ func c11Profile(concurrent bool) func(c *sim.RunCtx) {
 	return func(c *sim.RunCtx) {
 		t := c.T.Plan
 		objs := drawSimpleObjs(t, 2+t.Choose(5), "")
+		// a third of the runs: the mirrored pair and its replicators are
+		// assembled by NewBlobAccessFromConfiguration (wconfig_composite.go)
+		wcfg := t.Chance(1, 3)
+		if wcfg {
+			for i := range objs {
+				if len(objs[i].Data) == 0 {
+					objs[i].Data = []byte{0xE0, byte(i)}
+					objs[i].D = RefDigest("", remoteexecution.DigestFunction_SHA256, objs[i].Data)
+				}
+			}
+		}
 		// replicas that partition by instance name: some objects get a twin
 		// with the same content (same hash and size) under another name
 		kf := digest.KeyWithoutInstance
@@ -138,7 +151,7 @@ func c11Profile(concurrent bool) func(c *sim.RunCtx) {
 		for i := range placement {
 			placement[i] = t.Choose(4)
 		}
-		desc := fmt.Sprintf("strategy=%s keyformat=%v objs=%d placement=%v faultRate=%d streamRate=%d clients=%d", replStrategyNames[strategy], kf, len(objs), placement, faultRate, streamRate, clients)
+		desc := fmt.Sprintf("strategy=%s keyformat=%v objs=%d placement=%v faultRate=%d streamRate=%d clients=%d configured=%v", replStrategyNames[strategy], kf, len(objs), placement, faultRate, streamRate, clients, wcfg)
 		c.Sample["case"] = desc
 		c.Note("case %s plans=%v", desc, plans)
 		copying := strategy != rsNoop
@@ -174,7 +187,18 @@ func c11Profile(concurrent bool) func(c *sim.RunCtx) {
 			}
 			A.StreamFault, B.StreamFault = sf, sf
 			clk := sim.NewClock(s)
-			ba := mirrored.NewMirroredBlobAccess(A, B, newReplicatorKF(strategy, A, B, clk, 1+int64(t.Choose(2)), kf), newReplicatorKF(strategy, B, A, clk, 1+int64(t.Choose(2)), kf))
+			limAB, limBA := 1+int64(t.Choose(2)), 1+int64(t.Choose(2))
+			var ba blobstore.BlobAccess
+			if wcfg {
+				var restore func()
+				ba, _, restore = buildComposite(c, s, clk, &pb_blobstore.BlobAccessConfiguration{Backend: &pb_blobstore.BlobAccessConfiguration_Mirrored{Mirrored: &pb_blobstore.MirroredBlobAccessConfiguration{
+					BackendA: leafConfig("A"), BackendB: leafConfig("B"),
+					ReplicatorAToB: replicatorConfig(strategy, limAB), ReplicatorBToA: replicatorConfig(strategy, limBA)}}},
+					map[string]configuration.BlobAccessInfo{"A": {BlobAccess: A, DigestKeyFormat: kf}, "B": {BlobAccess: B, DigestKeyFormat: kf}})
+				defer restore()
+			} else {
+				ba = mirrored.NewMirroredBlobAccess(A, B, newReplicatorKF(strategy, A, B, clk, limAB, kf), newReplicatorKF(strategy, B, A, clk, limBA, kf))
+			}
 			ctx := context.Background()
 			gets := 0 // number of Get calls issued so far (sequential profile: decides who is consulted first)
 			runOp := func(o mop) {
